@@ -372,3 +372,26 @@ rn('autoclose-child', W, "def autoclose_active_children", "ZZZ-END", 'child', 'w
 
 ALL_FILES = [T, PR, RM, W, U, PT, PP, PRM, PE, PO, RS, RC, RP, PK, ST]
 ok('reformat-every-module-with-ast-unparse', [(f, ('unparse',), None) for f in ALL_FILES])
+
+
+# ----------------------------------------------------------------------------------------------- shapes of the independently seeded changes (see /verif/seeded)
+br('C16', 'seed-restart-syncs-only-after-wait', (PE, "        if not self.wait(timeout=timeout):\n            self.terminate(*args, **kwargs)\n            if self.is_alive():\n                raise RuntimeError(f'Could not stop a worker!')\n\n        self._get_result() # this is required to sync user state in some cases (fetch results, at least persistant process)\n",
+                                                 "        if self.wait(timeout=timeout):\n            self._get_result()\n        else:\n            self.terminate(*args, **kwargs)\n            if self.is_alive():\n                raise RuntimeError(f'Could not stop a worker!')\n"), 'restart-order')
+br('C13', 'seed-provisional-verdict-cache', (RP, "        allow_remote = True\n        first_not_remote = None", "        cls._cls_check_cache[t] = False\n        allow_remote = True\n        first_not_remote = None"), 'rejected-class-cached')
+br('C14', 'seed-entry-belief-renamed', (ST, "            assert not hasattr(RemoteState._active_contexts, 'ctxs')", "            assert not hasattr(RemoteState._active_contexts, 'stack')"), 'belief-contradicted')
+br('C15', 'seed-entry-belief-renamed', (ST, "            assert not hasattr(RemoteState._active_contexts, 'ctxs')", "            assert not hasattr(RemoteState._active_contexts, 'iter')"), 'belief-contradicted')
+br('C11', 'seed-ctrl-sock-rebound-to-none', (RM, "            try:\n                self._ctrl_sock.close()\n            except OSError:\n                pass\n\n        logger.details('Closing remote control thread')", "            try:\n                self._ctrl_sock.close()\n            except OSError:\n                pass\n            self._ctrl_sock = None\n\n        logger.details('Closing remote control thread')"), 'socket-rebound')
+br('C04', 'seed-is_alive-extra-conjunct', (RM, "            if self._child.is_alive():\n                return True\n\n            if not self._remote_dead:", "            if self._child.is_alive() and not self._remote_dead:\n                return True\n\n            if not self._remote_dead:"), 'dead-flag-without-evidence')
+br('C18', 'seed-rollback-pops-context', (RS, "                        logger.info('Client disconnected before receiving the result of a context operation')\n                        cli.close()", "                        logger.info('Client disconnected before receiving the result of a context operation')\n                        cli.close()\n                        if context is not None:\n                            self.contexts.pop(ctx_id, None)"), 'context-removed-outside-delete')
+br('C09', 'seed-first_enqueue-guard-removed', (PO, "                        if worker.id not in self._closed:\n                            more_data = try_enqueue(worker)\n                            if not more_data:\n                                return", "                        if not try_enqueue(worker):\n                            return"), 'try_enqueue-for-closed-worker')
+br('C08', 'seed-first_enqueue-guard-removed', (PO, "                        if worker.id not in self._closed:\n                            more_data = try_enqueue(worker)\n                            if not more_data:\n                                return", "                        if not try_enqueue(worker):\n                            return"), 'try_enqueue-for-closed-worker')
+br('C02', 'seed-backend-abortive-close', (RM, "        set_linger(self._socket, True, 5)", "        set_linger(self._socket, True, 0)"), 'abortive-close')
+br('C04', 'seed-get-with-ignored-timeout', (PR, "                if self._ctrl_comms.parent_end.poll(timeout): # an unresponsive child might never acknowledge\n                    self._ctrl_comms.parent_end.get()", "                self._ctrl_comms.parent_end.get(timeout=timeout)"), 'unbounded-read')
+br('C06', 'seed-pipe-get-connectionerror', (U, "        except (EOFError, OSError):\n            # OSError covers", "        except (EOFError, ConnectionError):\n            # OSError covers"), 'escape:OSError')
+br('C05', 'seed-kwargs-dict-merge', [(PP, "            kwargs = copy.deepcopy(self._kwargs)\n", ""), (PP, "            kwargs.update(extra_kwargs)", "            kwargs = {**self._kwargs, **extra_kwargs}")], 'defaults-not')
+br('C07', 'extra-bookkeeping-update', (PO, "                    if worker_callback:\n                        worker_callback(worker, 'idle')", "                    if worker_callback:\n                        worker_callback(worker, 'idle')\n                    self._retries.clear()"), 'unexpected-bookkeeping-update')
+br('C05', 'closed-flag-reset-in-close', (PT, "            if not self.is_alive():\n                return\n            self._release_child()", "            if not self.is_alive():\n                return\n            self._release_child()\n            self._closed = False"), 'unexpected-state-update')
+br('C04', 'dead-flag-set-in-close', (PP, "            #if not self.is_alive():\n            #    return\n            self._release_child()", "            self._release_child()\n            self._dead = True"), 'dead-flag-without-evidence')
+# a benign counterpart: PipeEndpoint.get honours its timeout, terminate() uses it
+ok('get-honours-timeout', [(U, "        try:\n            return self._pipe.recv()\n        except (EOFError, OSError):", "        try:\n            if timeout is not None and not self._pipe.poll(timeout):\n                raise queue.Empty\n            return self._pipe.recv()\n        except (EOFError, OSError):"),
+                           (PR, "                if self._ctrl_comms.parent_end.poll(timeout): # an unresponsive child might never acknowledge\n                    self._ctrl_comms.parent_end.get()", "                self._ctrl_comms.parent_end.get(timeout=timeout)")])
